@@ -19,6 +19,7 @@ func Typecheck(processes []*Process, assumedFreeNames []Name, globalEnv *GlobalE
 		defer func() {
 			// An internal failure is reported as a type error, never as success
 			if r := recover(); r != nil {
+				verifTc("panic")
 				resultChan <- fmt.Errorf("internal error while typechecking: %v", r)
 			}
 		}()
@@ -27,10 +28,12 @@ func Typecheck(processes []*Process, assumedFreeNames []Name, globalEnv *GlobalE
 	}()
 
 	if err := <-resultChan; err != nil {
+		verifTc("ret-err")
 		return err
 	}
 
 	globalEnv.log(LOGINFO, "Typecheck successful")
+	verifTc("ret-nil")
 
 	return nil
 }
@@ -40,17 +43,23 @@ func typecheckFunctionsAndProcesses(processes []*Process, assumedFreeNames []Nam
 	assignTypesToProcessProviders(processes)
 
 	// Start with some preliminary check on the labelled types
+	verifTc("p1")
 	if err := preliminaryTypesDefinitionsChecks(globalEnv); err != nil {
+		verifTc("err")
 		return err
 	}
 
 	// Check that function definitions are well formed
+	verifTc("p2")
 	if err := preliminaryFunctionDefinitionsChecks(globalEnv); err != nil {
+		verifTc("err")
 		return err
 	}
 
 	// Check that processes are well formed
+	verifTc("p3")
 	if err := preliminaryProcessesChecks(processes, assumedFreeNames, globalEnv); err != nil {
+		verifTc("err")
 		return err
 	}
 
@@ -61,18 +70,23 @@ func typecheckFunctionsAndProcesses(processes []*Process, assumedFreeNames []Nam
 	// So, we can initiate the more heavyweight typechecking on the function's and processes' bodies
 
 	// Typecheck function definitions
+	verifTc("p4")
 	if err := typecheckFunctionDefinitions(globalEnv); err != nil {
+		verifTc("err")
 		return err
 	}
 
 	globalEnv.log(LOGRULEDETAILS, "Function declarations typecheck ok")
 
 	// Typecheck process definitions
+	verifTc("p5")
 	if err := typecheckProcesses(processes, assumedFreeNames, globalEnv); err != nil {
+		verifTc("err")
 		return err
 	}
 
 	globalEnv.log(LOGRULEDETAILS, "Process declarations typecheck ok")
+	verifTc("ok")
 
 	return nil
 }
